@@ -43,6 +43,18 @@
 (*                    and samples straight into it afterwards: after an      *)
 (*                    expiry it keeps sampling into a reservoir VARZ_DATA no *)
 (*                    longer shows (counterexample generator, C18.oneSeries) *)
+(*          "falsy"   variant: the adapter behind the class-level form       *)
+(*                    metric(source[, amount]) takes a falsy amount for "no   *)
+(*                    amount given": a recording of exactly 0 through a fresh *)
+(*                    Source (what class-level callers pass) stores 1         *)
+(*                    (counterexample generator: sum, gauge, percentiles)     *)
+(*          "shared"  variant: Varz holders get their bound metrics from one *)
+(*                    dictionary keyed (attribute name, source) that all Varz *)
+(*                    classes share; here every metric id is a Varz class of  *)
+(*                    its own with the one attribute name they all share, so  *)
+(*                    the holder (object 0) of the class built second for a   *)
+(*                    source records into the series of the class built first *)
+(*                    (counterexample generator; counters and gauges only)    *)
 (* The property-level machine VarzAbs runs in lock-step on ghost variables; *)
 (* `viols` collects every C18 clause an aggregate entry breaks.            *)
 (***************************************************************************)
@@ -61,7 +73,7 @@ CONSTANTS Kinds,       \* sequence of metric kinds (metric id = position)
           MaxAge,      \* VarzAggregator.MAX_AGG_AGE in clock units
           MaxNow,      \* the clock stops at MaxNow (0: time stands still)
           Ticks,       \* clock steps
-          Design       \* "tree" | "expire" | "orphan"
+          Design       \* "tree" | "expire" | "orphan" | "falsy" | "shared"
 
 VARIABLES mkeys,   \* keys of VARZ_DATA in insertion order (sequence of metric ids)
           vdata,   \* metric id -> set of dict entries [k |-> object, v |-> value]
@@ -76,13 +88,15 @@ ivars == <<mkeys, vdata, nops, agg, ret, now, held>>
 vars == <<ivars, avars, viols>>
 View == <<mkeys, vdata, nops, agg, now, held, avars, viols>>
 
-ASSUME Design \in {"tree", "expire", "orphan"} /\ (Design # "tree" => SourceEq)
+ASSUME Design \in {"tree", "expire", "orphan", "falsy", "shared"} /\ (Design # "tree" => SourceEq)
+ASSUME Design = "shared" => \A m \in DOMAIN Kinds : Kinds[m] = Kinds[1] /\ Kinds[m] \in {"counter", "rate", "gauge"}
 
 M == DOMAIN Kinds
 Scale == 1000
 Zero == [n |-> 0, data |-> <<>>, i |-> 0, lu |-> 0]      \* int 0 / a new _SampleSet (stamped by its first sample)
 AggOff == [on |-> FALSE, sel |-> "none", pos |-> 0, n0 |-> 0, now0 |-> 0, out |-> <<>>]
-NoHold == [has |-> FALSE, live |-> FALSE, r |-> Zero]   \* has: looked up; live: its reservoir is the one in VARZ_DATA
+NoHold == [has |-> FALSE, live |-> FALSE, r |-> Zero, to |-> 0]   \* has: looked up; live: its reservoir is the one in
+                                                                  \* VARZ_DATA; to ("shared"): whose bound metric it got
 RangeOf(s) == {s[i] : i \in DOMAIN s}
 
 \* ---- dict keyed by Source objects ----------------------------------------------
@@ -107,19 +121,39 @@ SampleInto(r, v, keep) ==
   ELSE IF keep THEN [r EXCEPT !.data = Append(IF Len(@) >= Cap THEN Tail(@) ELSE @, v), !.i = @ + 1, !.lu = now]
   ELSE [r EXCEPT !.i = @ + 1]
 
+\* "falsy": what the receiver is given for a value recorded through the class-level form
+Eff(v, fresh) == IF Design = "falsy" /\ fresh /\ v = 0 THEN 1 ELSE v
+
+\* "shared": the metric whose bound object the holder of (class m, tuple t) got, i.e. where its recordings go
+FirstFor(t) == {m2 \in M : held[m2][t].has /\ held[m2][t].to = m2}
+Target(m, t, fresh) ==
+  IF Design # "shared" \/ fresh THEN m
+  ELSE IF held[m][t].has THEN held[m][t].to
+  ELSE IF FirstFor(t) # {} THEN CHOOSE m2 \in FirstFor(t) : TRUE
+  ELSE m
+HeldAfter(m, t, fresh) ==
+  IF Design = "shared" /\ ~fresh THEN [held EXCEPT ![m][t] = [@ EXCEPT !.has = TRUE, !.to = Target(m, t, fresh)]]
+  ELSE held
+
 DoInc(m, t, fresh, amt) ==
   /\ CanUpdate /\ Kinds[m] \in IncKinds
-  /\ vdata' = [vdata EXCEPT ![m] = Store(m, Obj(m, t, fresh), LAMBDA v : [v EXCEPT !.n = @ + amt])]
-  /\ Touch(m) /\ nops' = nops + 1
+  /\ LET mm == Target(m, t, fresh) IN
+       /\ vdata' = [vdata EXCEPT ![mm] = Store(mm, Obj(mm, t, fresh), LAMBDA v : [v EXCEPT !.n = @ + Eff(amt, fresh)])]
+       /\ Touch(mm)
+  /\ held' = HeldAfter(m, t, fresh)
+  /\ nops' = nops + 1
   /\ IncUpd(m, t, amt)
-  /\ UNCHANGED <<agg, ret, now, held, viols>>
+  /\ UNCHANGED <<agg, ret, now, viols>>
 
 DoSet(m, t, fresh, val) ==
   /\ CanUpdate /\ Kinds[m] = "gauge"
-  /\ vdata' = [vdata EXCEPT ![m] = Store(m, Obj(m, t, fresh), LAMBDA v : [v EXCEPT !.n = val])]
-  /\ Touch(m) /\ nops' = nops + 1
+  /\ LET mm == Target(m, t, fresh) IN
+       /\ vdata' = [vdata EXCEPT ![mm] = Store(mm, Obj(mm, t, fresh), LAMBDA v : [v EXCEPT !.n = Eff(val, fresh)])]
+       /\ Touch(mm)
+  /\ held' = HeldAfter(m, t, fresh)
+  /\ nops' = nops + 1
   /\ SetUpd(m, t, val)
-  /\ UNCHANGED <<agg, ret, now, held, viols>>
+  /\ UNCHANGED <<agg, ret, now, viols>>
 
 \* RecordPercentileSample, or (design "orphan", the holder of object 0) VarzMetric._Sample.  room / took are
 \* what the harness observes of VARZ_DATA before and after the call (see VarzAbs.Sample).
@@ -131,7 +165,7 @@ DoSample(m, t, fresh, val, keep) ==
          orphaned == bound /\ held[m][t].has /\ ~held[m][t].live
          target == IF orphaned THEN held[m][t].r
                    ELSE IF pre = {} THEN Zero ELSE (CHOOSE e \in pre : TRUE).v
-         vd == IF orphaned THEN vdata[m] ELSE Store(m, o, LAMBDA v : SampleInto(v, val, keep))
+         vd == IF orphaned THEN vdata[m] ELSE Store(m, o, LAMBDA v : SampleInto(v, Eff(val, fresh), keep))
          post == {e \in vd : KeyEq(e.k, o)}
          room == IF pre = {} \/ (\E e \in pre : Len(e.v.data) < Cap) THEN 1 ELSE 0
          took == IF post # {} /\ post # pre THEN 1 ELSE 0
@@ -140,7 +174,7 @@ DoSample(m, t, fresh, val, keep) ==
         /\ vdata' = [vdata EXCEPT ![m] = vd]
         /\ held' = IF ~bound THEN held
                    ELSE IF orphaned THEN [held EXCEPT ![m][t].r = SampleInto(target, val, keep)]
-                   ELSE [held EXCEPT ![m][t] = [has |-> TRUE, live |-> TRUE, r |-> Zero]]
+                   ELSE [held EXCEPT ![m][t] = [has |-> TRUE, live |-> TRUE, r |-> Zero, to |-> m]]
         /\ viols' = viols \cup (IF chk = "ok" THEN {} ELSE {chk})
   /\ Touch(m) /\ nops' = nops + 1
   /\ SampleUpd(m, t, val)
@@ -217,7 +251,7 @@ Expire ==
   IN /\ vdata' = [vdata EXCEPT ![m] = @ \ gone]
      /\ held' = [held EXCEPT ![m] = [t \in Tuples |->
                    IF @[t].has /\ @[t].live /\ \E e \in gone : e.k.t = t
-                   THEN [has |-> TRUE, live |-> FALSE, r |-> (CHOOSE e \in gone : e.k.t = t).v]
+                   THEN [has |-> TRUE, live |-> FALSE, r |-> (CHOOSE e \in gone : e.k.t = t).v, to |-> m]
                    ELSE @[t]]]
 
 AggStepNext ==
@@ -288,6 +322,8 @@ K_ct == <<"rate", "timer">>
 K_gt == <<"gauge", "avgrate">>
 K_cgt == <<"counter", "gauge", "timer">>
 K_t == <<"timer">>
+K_cc == <<"counter", "counter">>
+K_gg == <<"gauge", "gauge">>
 K_tc == <<"timer", "counter">>
 T2 == {<<1, 1, 1, 0>>, <<1, 1, 2, 0>>}
 T3 == {<<1, 1, 1, 0>>, <<1, 1, 2, 0>>, <<0, 2, 0, 1>>}
